@@ -52,10 +52,10 @@ def gen(w, rng, tier):
                         a_val = sv * (sr * b_val) / sl
                     b = enc_frac(w.be, b_val)
                     for e in around(w.be, enc_frac(w.be, a_val)):
-                        ops.append((f"d{op}:on-scale", f"d{op} {l} {r} {o} {i} {e} {j} {b}"))
+                        ops.append((f"d{op}:on-scale", f"d{op}u {l} {r} {o} {i} {e} {j} {b}"))
                 la, a = rng.choice(amounts(w.be, rng, 2))
                 lb, b = rng.choice(amounts(w.be, rng, 2))
-                ops.append((f"d{op}:{la}:{lb}", f"d{op} {l} {r} {o} {i} {a} {j} {b}"))
+                ops.append((f"d{op}:{la}:{lb}", f"d{op}u {l} {r} {o} {i} {a} {j} {b}"))
     return ops
 
 
